@@ -68,6 +68,7 @@ type c14Run struct {
 	pol     verifrt.Policy
 	nextClean int
 	nested  bool
+	inRepeat bool // the main goroutine performs its operations as state-machine actions (rapid re-checks the failed flag after each)
 	lateJoin bool // the goroutines are joined by the first-registered cleanup: they keep calling *T methods while rapid runs the cleanups
 }
 
@@ -153,7 +154,18 @@ func (r *c14Run) section(t *rapid.T, inner bool) {
 		g := g
 		s.Go(func() { r.runOps(t, inv, g, r.ops[g]) })
 	}
-	r.runOps(t, inv, 0, r.ops[0])
+	if r.inRepeat {
+		k := 0
+		t.Repeat(map[string]func(*rapid.T){
+			"op": func(t *rapid.T) {
+				r.runOps(t, inv, 0, []int{r.ops[0][k%len(r.ops[0])]})
+				k++
+			},
+			"": func(t *rapid.T) { verifrt.Yield(1000) },
+		})
+	} else {
+		r.runOps(t, inv, 0, r.ops[0])
+	}
 	if !r.lateJoin {
 		finish()
 	}
@@ -207,7 +219,10 @@ func scenarioC14(rc *RunCtx) {
 	}
 	nG := t.Int("c14.ng", 1, maxG)
 	sigPct := []int{0, 8, 20}[t.Weighted("c14.sigpct", 3, 4, 2)]
-	r := &c14Run{pol: genPolicy(t), nested: t.Chance("c14.nested_cleanup", 40), lateJoin: t.Chance("c14.late_join", 30)}
+	r := &c14Run{pol: genPolicy(t), nested: t.Chance("c14.nested_cleanup", 40), lateJoin: t.Chance("c14.late_join", 30), inRepeat: t.Chance("c14.in_repeat", 25)}
+	if r.inRepeat {
+		r.lateJoin = true // rapid may end the call (failed flag seen after an action) while the goroutines still run: join in a cleanup
+	}
 	nsig := 0
 	for g := 0; g <= nG; g++ {
 		n := t.Int("c14.nops", 1, maxOps)
@@ -256,7 +271,7 @@ func scenarioC14(rc *RunCtx) {
 		}
 		desc = append(desc, fmt.Sprintf("g%d:[%s]", g, strings.Join(s, " ")))
 	}
-	rc.Sample = fmt.Sprintf("policy=%s seed=%d custom=%v lateJoin=%v v=%v checks=%d ops=%s verdict=%s sections=%d", policyNames[r.pol.Kind], r.pol.Seed, useCustom, r.lateJoin, fl.Verbose, fl.Checks, strings.Join(desc, " "), tb.verdict(), len(r.invs))
+	rc.Sample = fmt.Sprintf("policy=%s seed=%d custom=%v lateJoin=%v inRepeat=%v v=%v checks=%d ops=%s verdict=%s sections=%d", policyNames[r.pol.Kind], r.pol.Seed, useCustom, r.lateJoin, r.inRepeat, fl.Verbose, fl.Checks, strings.Join(desc, " "), tb.verdict(), len(r.invs))
 	if r.lateJoin {
 		rc.Inc("probe.goroutines_running_during_cleanup_phase")
 	}
@@ -298,7 +313,32 @@ func scenarioC14(rc *RunCtx) {
 	if nsig > 0 {
 		want = "fail"
 	}
-	if v := tb.verdict(); v != want {
+	if r.inRepeat {
+		// how many of the main goroutine's operations run depends on the drawn number of steps, and where rapid notices the
+		// failed flag depends on the schedule (so "flaky" is a legitimate report here): judge by what was executed
+		executed, bySpawned := false, false
+		for _, inv := range r.invs {
+			for g, l := range inv.logs {
+				for _, o := range l {
+					if isSignal(o.K) {
+						executed = true
+						if g > 0 {
+							bySpawned = true
+						}
+					}
+				}
+			}
+		}
+		v := tb.verdict()
+		switch {
+		case bySpawned && v != "fail" && v != "flaky":
+			rc.V(viol("C14.R3", "verdict:"+v+"-want-fail", "goroutines signalled a failure in every invocation, Check reported %q", v))
+		case !executed && v != "pass":
+			rc.V(viol("C14.R3", "verdict:"+v+"-want-pass", "no failure was signalled, Check reported %q (%v)", v, tb.errs))
+		case executed && v == "pass":
+			rc.V(viol("C14.R3", "verdict:pass-want-fail", "a failure was signalled, Check reported %q", v))
+		}
+	} else if v := tb.verdict(); v != want {
 		rc.V(viol("C14.R3", "verdict:"+v+"-want-"+want, "%d failure signals from goroutines per invocation, Check reported %q (%v)", nsig, v, tb.errs))
 	}
 	for i, inv := range r.invs {
